@@ -187,6 +187,22 @@ func (c *Ctx) ReconcileRoles() *Reconcile {
 			r.Updates = append(r.Updates, call)
 		}
 	}
+	// `victim := condemned[target]; Delete(set, victim)`: the argument stands for the cell it was read from.
+	// Rules see a shadow of the call whose pod argument is that cell; the engine confirms below that the
+	// local still equals the cell where the call is made, otherwise the call is left as written.
+	shadowOf := map[*ast.CallExpr]*ast.CallExpr{}
+	for _, lst := range []*[]*ast.CallExpr{&r.Creates, &r.Deletes, &r.Updates} {
+		for i, call := range *lst {
+			if len(call.Args) != 2 {
+				continue
+			}
+			if e := aliasOf(host, info, call.Args[1]); e != nil {
+				sh := &ast.CallExpr{Fun: call.Fun, Lparen: call.Lparen, Args: []ast.Expr{call.Args[0], e}, Ellipsis: call.Ellipsis, Rparen: call.Rparen}
+				shadowOf[sh] = call
+				(*lst)[i] = sh
+			}
+		}
+	}
 	r.Fn = c.E.FnOf(host)
 	// parameters by type
 	for _, f := range host.Decl.Type.Params.List {
@@ -307,34 +323,28 @@ func (c *Ctx) ReconcileRoles() *Reconcile {
 		return nil
 	}
 	// revision parameters: the one whose .Name is stored into Status.UpdateRevision / CurrentRevision
-	ast.Inspect(host.Decl.Body, func(n ast.Node) bool {
-		as, ok := n.(*ast.AssignStmt)
-		if !ok || len(as.Lhs) != 1 || len(as.Rhs) != 1 {
-			return true
+	for _, fs := range fieldStores(info, host.Decl.Body) {
+		if !isNamed(fs.Owner, load.APIPkg, "StatefulSetStatus") {
+			continue
 		}
-		ls, ok := as.Lhs[0].(*ast.SelectorExpr)
-		if !ok || !isNamed(info.TypeOf(ls.X), load.APIPkg, "StatefulSetStatus") {
-			return true
-		}
-		rs, ok := as.Rhs[0].(*ast.SelectorExpr)
+		rs, ok := ast.Unparen(fs.Rhs).(*ast.SelectorExpr)
 		if !ok || rs.Sel.Name != "Name" {
-			return true
+			continue
 		}
 		rid, ok := rs.X.(*ast.Ident)
 		if !ok || !isNamed(info.TypeOf(rid), "k8s.io/api/apps/v1", "ControllerRevision") {
-			return true
+			continue
 		}
-		if lid, ok := ls.X.(*ast.Ident); ok {
+		if lid, ok := ast.Unparen(fs.Base).(*ast.Ident); ok {
 			r.Status = info.ObjectOf(lid)
 		}
-		switch ls.Sel.Name {
+		switch fs.Field {
 		case "UpdateRevision":
 			r.UpdRev = rid
 		case "CurrentRevision":
 			r.CurRev = rid
 		}
-		return true
-	})
+	}
 	if r.UpdRev == nil || r.CurRev == nil || r.Status == nil {
 		c.Fail("status.CurrentRevision / status.UpdateRevision are not assigned from ControllerRevision parameters' names")
 		return nil
@@ -361,6 +371,18 @@ func (c *Ctx) ReconcileRoles() *Reconcile {
 		}
 	}
 	_, r.An = c.Analysis(host)
+	for _, lst := range []*[]*ast.CallExpr{&r.Creates, &r.Deletes, &r.Updates} {
+		for i, sh := range *lst {
+			orig, ok := shadowOf[sh]
+			if !ok {
+				continue
+			}
+			eq := gf.FEq(r.Fn.Term(orig.Args[1]), r.Fn.Term(sh.Args[1]))
+			if ok, _ := r.An.StateAtExpr(orig).Implies(eq); !ok {
+				(*lst)[i] = orig
+			}
+		}
+	}
 	// loops
 	ast.Inspect(host.Decl.Body, func(n ast.Node) bool {
 		switch x := n.(type) {
@@ -426,4 +448,151 @@ func stmtOf(body ast.Node, n ast.Node) ast.Stmt {
 		return true
 	})
 	return best
+}
+
+// fieldStore is one store into a struct field: `x.F = e`, or the F: e element
+// of a composite literal assigned to x (`x := T{F: e}`, `x = &T{F: e}`, `var x = T{...}`).
+type fieldStore struct {
+	Base    ast.Expr  // x (an identifier for literal stores)
+	Owner   types.Type // type of x
+	Field   string
+	Rhs     ast.Expr
+	Node    ast.Node // the statement (AssignStmt, ValueSpec)
+	Literal bool
+}
+
+// fieldStores lists the field stores in body (function literals included).
+func fieldStores(info *types.Info, body ast.Node) []fieldStore {
+	var out []fieldStore
+	lit := func(base ast.Expr, rhs ast.Expr, node ast.Node) {
+		rhs = ast.Unparen(rhs)
+		if u, ok := rhs.(*ast.UnaryExpr); ok && u.Op == token.AND {
+			rhs = ast.Unparen(u.X)
+		}
+		cl, ok := rhs.(*ast.CompositeLit)
+		if !ok {
+			return
+		}
+		if _, isStruct := info.TypeOf(cl).Underlying().(*types.Struct); !isStruct {
+			return
+		}
+		for _, el := range cl.Elts {
+			kv, ok := el.(*ast.KeyValueExpr)
+			if !ok {
+				continue
+			}
+			if kid, ok := kv.Key.(*ast.Ident); ok {
+				out = append(out, fieldStore{Base: base, Owner: info.TypeOf(base), Field: kid.Name, Rhs: kv.Value, Node: node, Literal: true})
+			}
+		}
+	}
+	ast.Inspect(body, func(n ast.Node) bool {
+		switch x := n.(type) {
+		case *ast.AssignStmt:
+			if len(x.Lhs) != len(x.Rhs) {
+				return true
+			}
+			for i, l := range x.Lhs {
+				if sel, ok := ast.Unparen(l).(*ast.SelectorExpr); ok {
+					if s, ok := info.Selections[sel]; ok && s.Kind() == types.FieldVal && (x.Tok == token.ASSIGN || x.Tok == token.DEFINE) {
+						out = append(out, fieldStore{Base: sel.X, Owner: info.TypeOf(sel.X), Field: sel.Sel.Name, Rhs: x.Rhs[i], Node: x})
+					}
+					continue
+				}
+				lit(l, x.Rhs[i], x)
+			}
+		case *ast.ValueSpec:
+			if len(x.Names) == len(x.Values) {
+				for i, nm := range x.Names {
+					lit(nm, x.Values[i], x)
+				}
+			}
+		}
+		return true
+	})
+	return out
+}
+
+// aliasOf: e is a local variable with a single definition in fi whose right-hand side is a
+// cell or field path (`v := xs[i]`); returns that path, nil otherwise.
+func aliasOf(fi *load.FuncInfo, info *types.Info, e ast.Expr) ast.Expr {
+	id, ok := ast.Unparen(e).(*ast.Ident)
+	if !ok {
+		return nil
+	}
+	obj, ok := info.ObjectOf(id).(*types.Var)
+	if !ok || obj.Parent() == nil || obj.Pkg() == nil || obj.Parent() == obj.Pkg().Scope() {
+		return nil
+	}
+	// parameters are not aliases
+	for _, f := range fi.Decl.Type.Params.List {
+		for _, n := range f.Names {
+			if info.ObjectOf(n) == obj {
+				return nil
+			}
+		}
+	}
+	var rhs ast.Expr
+	n := 0
+	ast.Inspect(fi.Decl.Body, func(x ast.Node) bool {
+		switch s := x.(type) {
+		case *ast.AssignStmt:
+			for i, l := range s.Lhs {
+				if lid, ok := l.(*ast.Ident); ok && info.ObjectOf(lid) == obj {
+					n++
+					if len(s.Lhs) == len(s.Rhs) {
+						rhs = s.Rhs[i]
+					} else {
+						rhs = nil
+						n++
+					}
+				}
+			}
+		case *ast.ValueSpec:
+			for i, nm := range s.Names {
+				if info.ObjectOf(nm) == obj {
+					n++
+					if len(s.Values) == len(s.Names) {
+						rhs = s.Values[i]
+					}
+				}
+			}
+		case *ast.RangeStmt:
+			for _, kv := range []ast.Expr{s.Key, s.Value} {
+				if lid, ok := kv.(*ast.Ident); ok && lid != nil && info.ObjectOf(lid) == obj {
+					n += 2
+				}
+			}
+		case *ast.IncDecStmt:
+			if lid, ok := s.X.(*ast.Ident); ok && info.ObjectOf(lid) == obj {
+				n += 2
+			}
+		case *ast.UnaryExpr:
+			if lid, ok := s.X.(*ast.Ident); ok && s.Op == token.AND && info.ObjectOf(lid) == obj {
+				n += 2
+			}
+		}
+		return true
+	})
+	if n != 1 || rhs == nil {
+		return nil
+	}
+	switch ast.Unparen(rhs).(type) {
+	case *ast.IndexExpr, *ast.SelectorExpr:
+		return ast.Unparen(rhs)
+	}
+	return nil
+}
+
+// resolveAlias: e is a local with a single definition `v := path` and the state st (at the use)
+// implies v == path: returns the path, otherwise e itself.
+func (c *Ctx) resolveAlias(fi *load.FuncInfo, fn *gf.Fn, st gf.State, e ast.Expr) ast.Expr {
+	al := aliasOf(fi, fi.Pkg.TypesInfo, e)
+	if al == nil {
+		return e
+	}
+	if ok, _ := st.Implies(gf.FEq(fn.Term(e), fn.Term(al))); ok {
+		return al
+	}
+	return e
 }
